@@ -504,6 +504,16 @@ def _run_shard(shard, ctx):
 
 
 def replay(inputs, ctx):
+    _SLOW[0] = 0
+    try:
+        _replay(inputs, ctx)
+    except ShardAbandoned:
+        ctx.fail('C06/abandoned/replay', ['shard-abandoned'], inputs,
+                 'every case terminates promptly',
+                 'timeout x%d: replay abandoned' % MAX_SLOW_PER_SHARD)
+
+
+def _replay(inputs, ctx):
     k = inputs['kind']
     if k == 'shard':
         run_shard(inputs['shard'], ctx)
